@@ -4,6 +4,7 @@
   notions of Spec/Unicode.lean; `convert` / `stringSetUtf8` are the model of the code.
 -/
 import StVerif.Lemmas.UtfString
+import StVerif.Lemmas.KernelBridge
 
 namespace StVerif.Props.C02
 open StVerif StVerif.Utf StVerif.Generated StVerif.Lemmas.Utf
@@ -247,5 +248,15 @@ example : wellFormedByDesign .utf8 [0x41, 0xC0, 0x80, 0xED, 0xA0, 0x80, 0xF4, 0x
 example : wellFormedByDesign .utf8 [0x41, 0x80] = false ∧ wellFormedByDesign .utf16 [0xDC00, 0xD800] = true ∧
     wellFormedByDesign .utf16 [0xD800] = false ∧ wellFormedByDesign .utf32 [0x110000] = false := by decide
 example : cleanupUtf8 [0x41, 0xE2, 0x82, 0x42, 0xFF] = [0x41, 0xEF, 0xBF, 0xBD, 0xEF, 0xBF, 0xBD, 0x42, 0xEF, 0xBF, 0xBD] := by decide
+
+/-! ### tie to the source (tools/gen_kernels.py) -/
+
+/-- the decoders the validation modes are built on, as translated from the C++ on every run, are the model's decoders
+    (malformed units included: an error is the flagged value `error_char` builds), and `char_error` reads the flag back -/
+theorem kernels_are_model (mem : List Nat) (ch : Nat) (hch : ch < 2 ^ 31) :
+    KernelBridge.stepLoop Kernels.extract_utf8 mem (mem.length + 1) 0 = .ok (decodeUtf8 mem) ∧
+    KernelBridge.stepLoop Kernels.extract_utf16 mem (mem.length + 1) 0 = .ok (decodeUtf16 mem) ∧
+    Kernels.char_error ch = .ok ((charError ch : Nat) : Int) :=
+  ⟨KernelBridge.utf8_loop_eq mem, KernelBridge.utf16_loop_eq mem, KernelBridge.char_error_eq ch hch⟩
 
 end StVerif.Props.C02
